@@ -23,7 +23,7 @@ sys.path.insert(0, os.path.dirname(os.path.abspath(__file__)))
 import vlib
 from vlib import log
 
-MONITORS = ["ClassifiedAsRouted", "DistinctRounds", "ClassifiedAlike", "SenderAttribution", "EmbeddedMismatchDropped", "NonMemberRejected", "ProbeNoEffect",
+MONITORS = ["ClassifiedAsRouted", "ClassificationFollowsLibrary", "DistinctRounds", "ClassifiedAlike", "SenderAttribution", "EmbeddedMismatchDropped", "NonMemberRejected", "ProbeNoEffect",
             "RunCompletes", "KeyAgreement", "SignedDigestIsRequested", "NoPanic"]
 OUTCOME_MONITORS = ("RunCompletes", "ProbeNoEffect")
 URL_PREFIX = "type.googleapis.com/binance.tsslib."
@@ -68,6 +68,9 @@ def write_model(wd, name, consts, table_expr, invariants, extra_defs="", init="I
     return name
 
 
+_ENCODINGS = []        # the catalogue of hand-crafted encodings as printed by the spec (filled by tlc_laws)
+
+
 def tlc_laws(wd):
     """table laws + digest laws; returns (TLCResult, tables as printed by the spec)"""
     name = "MC_ad_laws"
@@ -80,20 +83,24 @@ LawsOK == /\\ TableLaws(EdDSATable) /\\ TableLaws(ECDSATable)
           /\\ DigestLaws({0, 1, 255}, 3, 2, <<255, 1>>)
           /\\ DigestLaws({0, 7}, 4, 3, <<7, 0, 7>>)
           /\\ StrippedVariantFails({0, 1, 255}, 3, 2, <<255, 1>>)   \\* the digest clause can fail (behaviour before the repair)
+          /\\ EncodingLaws      \\* classification follows the library for every hand-crafted encoding; 'first type_url wins' does not
 LNext == /\\ Assert(LawsOK, "table / digest laws of spec/Adapters.tla violated")
          /\\ PrintT(<<"TAB", ToJson([eddsa |-> EdDSATable, ecdsa |-> ECDSATable])>>)
+         /\\ PrintT(<<"ENC", ToJson(EncodingCases)>>)
          /\\ UNCHANGED vars
 ====
 """ % name)
     with open(os.path.join(wd, name + ".cfg"), "w") as f:
         f.write("CONSTANTS Parties <- c_Parties Byz <- c_Empty Outsiders <- c_Empty Table <- c_Empty MaxSpoof = 0 TrustEmbedded = FALSE NearestIndex = FALSE IgnoreCtx = FALSE\n"
                 "INIT Init\nNEXT LNext\n")
-    r = vlib.run_tlc(name, name + ".cfg", ["Adapters.tla"], workdir=wd, workers=1, timeout=300, keep_prints=["TAB"])
+    r = vlib.run_tlc(name, name + ".cfg", ["Adapters.tla"], workdir=wd, workers=1, timeout=300, keep_prints=["TAB", "ENC"])
     if r.violation:
         raise vlib.CheckError("the laws of spec/Adapters.tla do not hold (%s):\n%s" % (r.violation, r.out[-1500:]))
     tabs = [o for (t, o) in r.prints if t == "TAB"]
-    if not tabs:
-        raise vlib.CheckError("spec/Adapters.tla printed no tables:\n%s" % r.out[-1500:])
+    encs = [o for (t, o) in r.prints if t == "ENC"]
+    if not tabs or not encs:
+        raise vlib.CheckError("spec/Adapters.tla printed no tables / encodings:\n%s" % r.out[-1500:])
+    _ENCODINGS[:] = sorted(encs[0], key=lambda e: (len(e["items"]), e["items"]))
     return r, tabs[0]
 
 
@@ -428,6 +435,26 @@ def plan_for(tr, rng, tabs, wd):
         for g in garbage:
             cls.append(dict(adapter=ad, kind="garbage", raw=g, url="", variant=""))
     plan.classify = cls
+    # hand-crafted encodings (catalogue enumerated by TLC) for every message type of both adapters x decoys: another type of the same
+    # phase with a different (round, class), a type of the other phase, a type of the other adapter
+    enc = []
+    for ad in ("ecdsa", "eddsa"):
+        other_ad = "eddsa" if ad == "ecdsa" else "ecdsa"
+        for e in sorted(tabs[ad], key=lambda x: x["url"]):
+            same = [x for x in tabs[ad] if x["phase"] == e["phase"] and (x["round"], x["bcast"]) != (e["round"], e["bcast"])]
+            diff = [x for x in tabs[ad] if x["phase"] != e["phase"]]
+            decoys = [rng.choice(sorted(same, key=lambda x: x["url"])), rng.choice(sorted(diff + tabs[other_ad], key=lambda x: x["url"]))]
+            if big:
+                decoys += [rng.choice(sorted(same, key=lambda x: x["url"])), rng.choice(sorted(tabs[other_ad], key=lambda x: x["url"])),
+                           rng.choice(sorted(diff, key=lambda x: x["url"]))]
+            seen = set()
+            for d in decoys:
+                if d["url"] in seen:
+                    continue
+                seen.add(d["url"])
+                for c in _ENCODINGS:
+                    enc.append(dict(adapter=ad, t=URL_PREFIX + e["url"], d=URL_PREFIX + d["url"], items=c["items"]))
+    plan.encodings = enc
     plan.classify_t = plan.tid(session=-1, ad="both", phase="table", probe=None, tag="table")
     return plan
 
@@ -529,8 +556,8 @@ def signature(v, m):
     mon = v["mon"]
     ad = m.get("ad", v.get("ad", ""))
     pk = (m.get("probe") or {}).get("kind", "none")
-    if mon == "ClassifiedAsRouted":
-        return "ClassifiedAsRouted/%s" % v["cls"]
+    if mon in ("ClassifiedAsRouted", "ClassificationFollowsLibrary"):
+        return "%s/%s" % (mon, v["cls"])
     if mon == "SignedDigestIsRequested":
         return "SignedDigestIsRequested/%s/%s" % (ad, v["cls"])
     if mon == "NoPanic":
@@ -585,7 +612,7 @@ def execute(pid, plan, wd, verdict, tr):
     heavy = [i for i, tg in enumerate(plan.tags) if tg in ("dkg", "dkg-probe")]
     light = [i for i in range(len(plan.sessions)) if i not in heavy]
     jobs = [("a", dict(sessions=[plan.sessions[i] for i in light], classify=plan.classify, classify_t=plan.classify_t,
-                       workers=10))]
+                       encodings=plan.encodings, fixture=FIXTURE if plan.have_fixture else "", workers=10))]
     if heavy:
         jobs.append(("dkg", dict(sessions=[plan.sessions[i] for i in heavy], classify=[], classify_t=0, workers=2)))
     dead_all = []
@@ -681,6 +708,7 @@ def execute(pid, plan, wd, verdict, tr):
         verdict.violation(sig, desc, dict(property=pid, monitor=v["mon"], cls=v.get("cls"), signature=sig, meta=m,
                                           session=session_for(plan, v["t"]),
                                           classify=plan.classify if m["phase"] == "table" else None,
+                                          encodings=plan.encodings if m["phase"] == "table" else None,
                                           real_trace=[slim(o) for o in all_traces.get(v["t"], [])][:600]))
     if no_handovers:
         stats["drift"]["attribution not observable through the injected Logger"] = len(no_handovers)
@@ -857,7 +885,8 @@ def finish(pid, tr, verdict, st, trn, configs, tabs, plan, stats):
         states=max(st + stats["st"], 1), transitions=max(trn + stats["trn"], 1),
         traces_validated_against_impl=stats["traces"], samples=stats["samples"] or [dict(note="none")], exhaustive=False,
         configs=configs, real_events=stats["events"], runs_completed=stats["completed"], sign_runs_the_library_refuses=stats["refused"],
-        sessions=len(plan.sessions), handbuilt_classifications=len(plan.classify), table_coverage=cov,
+        sessions=len(plan.sessions), handbuilt_classifications=len(plan.classify), handcrafted_encodings=len(plan.encodings),
+        encoding_catalogue=len(_ENCODINGS), table_coverage=cov,
         every_table_entry_observed_in_real_runs=not cov["only_handbuilt"] and not cov["never_observed"],
         ecdsa_stored_key_used=bool(plan.have_fixture) and tr == "quick",
         selftest_corrupted_traces_rejected=stats["selftest"], retry_statistics=stats["retry_statistics"],
@@ -1222,7 +1251,8 @@ def replay(pid, path):
     verdict = vlib.Verdict(pid)
     m = o["meta"]
     if m["phase"] == "table":
-        job = dict(sessions=[], classify=o["classify"], classify_t=1, workers=1)
+        job = dict(sessions=[], classify=o["classify"], classify_t=1, workers=1, encodings=o.get("encodings") or [],
+                   fixture=FIXTURE if os.path.exists(FIXTURE) else "")
         traces, dead, _, err = run_driver(job, wd, "replay", timeout=600)
         viols, ends, _, _ = validate(traces, wd, "replay", par=1)
     else:
